@@ -101,3 +101,47 @@ def P_pow(a, n):
     if a.t:
         return P({((atom(a), Fr(n).limit_denominator(64)),): Fr(1)})
     return None
+
+
+def as_fraction(p):
+    """(numerator, denominator) polynomials free of atoms and negative exponents such that p = numerator / denominator;
+    None if p contains a fractional exponent"""
+    p = P.lift(p)
+    # common denominator: for every symbol the most negative exponent over all monomials
+    neg = {}
+    for mono in p.t:
+        for s_, e in mono:
+            if e != int(e):
+                return None
+            if e < 0:
+                neg[s_] = max(neg.get(s_, 0), int(-e))
+    den = P.c(1)
+    for s_, k in neg.items():
+        base = ATOMS[s_] if s_ in ATOMS else P.s(s_)
+        for _ in range(k):
+            den = den * base
+    num = P()
+    for mono, coef in p.t.items():
+        term = P.c(coef)
+        have = dict(mono)
+        for s_ in set(list(have) + list(neg)):
+            e = int(have.get(s_, 0)) + neg.get(s_, 0)
+            base = ATOMS[s_] if s_ in ATOMS else P.s(s_)
+            for _ in range(e):
+                term = term * base
+        num = num + term
+    # atoms may themselves contain atoms: expand once more if needed
+    if any(s_ in ATOMS for mono in list(num.t) + list(den.t) for s_, e in mono):
+        n2, d2 = as_fraction(num), as_fraction(den)
+        if n2 is None or d2 is None:
+            return None
+        return n2[0] * d2[1], n2[1] * d2[0]
+    return num, den
+
+
+def ratio_equal(a, b):
+    """a == b as rational functions (atoms expanded); None if not decidable"""
+    fa, fb = as_fraction(a), as_fraction(b)
+    if fa is None or fb is None:
+        return None
+    return fa[0] * fb[1] == fb[0] * fa[1]
